@@ -118,6 +118,9 @@ def c_enum_defs(r, name):
         c = r.choice(["disc", "disc", "pos", "attr"])
         if c == "disc":
             v["disc"] = r.choice([x for x in [0, 1, 2, 3, 5, 9, 77, 255] if x not in used] or [11])
+            if r.random() < 0.35:
+                # both: the attribute is the index on the wire, the discriminant is not
+                v["index"] = r.choice([30, 31, 32, 33, 34, 35])
         elif c == "attr":
             v["index"] = r.choice([20, 21, 22, 23, 24])
         vs.append(v)
@@ -145,8 +148,8 @@ def definitions(seed, thorough):
     # fixed shapes the statement names
     def f(t, attr="plain"):
         return {"ty": next(x for x in G.FIELD_TYPES if x[0] == t), "attr": attr, "conflict": None}
-    def unit(nm, skip=False, index=None):
-        return {"name": nm, "skip": skip, "index": index, "disc": None, "fields": [], "shape": "unit"}
+    def unit(nm, skip=False, index=None, disc=None):
+        return {"name": nm, "skip": skip, "index": index, "disc": disc, "fields": [], "shape": "unit"}
     fixed = [
         dict(kind="struct", name="FxSingle", shape="tuple", fields=[f("u32")], transparent=False),          # single-field forwarder
         dict(kind="struct", name="FxSingleSk", shape="named", fields=[f("u8", "skip"), f("u64", "compact"), f("u16", "skip")], transparent=False),
@@ -156,6 +159,9 @@ def definitions(seed, thorough):
         dict(kind="enum", name="FxAllSkipped", variants=[unit("A", skip=True), unit("B", skip=True)]),
         dict(kind="enum", name="FxOneSkipped", variants=[unit("A", skip=True), unit("B"), unit("C", index=0)] if False else [unit("A", skip=True), unit("B"), unit("C", index=5)]),
         dict(kind="enum", name="FxEmpty", variants=[]),
+        # index attribute and explicit discriminant on one variant: the attribute wins
+        dict(kind="enum", name="FxAttrDisc", variants=[unit("A", index=9, disc=7), unit("B", disc=3), unit("C")]),
+        dict(kind="enum", name="FxAttrDisc2", variants=[unit("A", disc=1), unit("B", index=1, disc=0)] if False else [unit("A", disc=4), unit("B", index=1, disc=0)]),
         dict(kind="enum", name="FxSkipMid", variants=[unit("A"), {"name": "S", "skip": True, "index": None, "disc": None, "shape": "tuple", "fields": [f("u32")]}, {"name": "C", "skip": False, "index": None, "disc": None, "shape": "named", "fields": [f("u16", "compact"), f("Vec<u8>")]}]),
     ]
     return defs + fixed
@@ -307,7 +313,7 @@ def run(g, cfg, pid, tier, seed, work, problems):
         stats = json.load(open(os.path.join(work, "stats.json")))
     except Exception:
         stats = dict(evaluations=0, distinct_nontrivial=0)
-    stats["rule"] = ("seeded type definitions over the attribute grammar (unit / tuple / named structs; enums with unit, tuple and named variants; fields plain / compact / encoded_as / skip over 14 field types; variants with index attributes, explicit discriminants, implicit positions, skip) plus fixed shapes (single non-skipped field, all fields skipped, repr(transparent) with and without compact, all variants skipped, empty enum, skipped variant in the middle), also nested in Vec / Box / arrays / Option; per type: seeded values -> encode vs the model's encoding of the descriptor derived from the definition, decode of the encoding + suffix, three mutations, and every possible first byte; every value in a skipped variant is encoded in a child process (must print no bytes and exit). non-trivial = non-empty input")
+    stats["rule"] = ("seeded type definitions over the attribute grammar (unit / tuple / named structs; enums with unit, tuple and named variants; fields plain / compact / encoded_as / skip over 14 field types; variants with index attributes, explicit discriminants, both at once, implicit positions, skip) plus fixed shapes (single non-skipped field, all fields skipped, repr(transparent) with and without compact, all variants skipped, empty enum, skipped variant in the middle), also nested in Vec / Box / arrays / Option; per type: seeded values -> encode vs the model's encoding of the descriptor derived from the definition, decode of the encoding + suffix, three mutations, and every possible first byte; every value in a skipped variant is encoded in a child process (must print no bytes and exit). non-trivial = non-empty input")
     stats["oracle_checks"] = int(stats.get("oracle_checks", 0)) + len(pr)
     stats.setdefault("distribution", {})["definitions"] = len(defs)
     stats["distribution"]["skipped_variant_probes"] = len(pr)
